@@ -21,11 +21,20 @@ import (
 )
 
 // strAlphabet is the string alphabet for originator fields: empty, single characters, a string and
-// its two splits ("ab" vs "a","b"), delimiter-like strings, NUL, a 32-byte 0xff block and a long string.
+// its two splits ("ab" vs "a","b"), delimiter-like strings, NUL, a 32-byte 0xff block, a long string,
+// strings that differ only in letter case or in leading/trailing spaces, an EIP-55 mixed-case hex
+// address with its lower- and upper-case forms, a base58-like address and upper/lower-case chain ids.
 var strAlphabet = []string{
 	"", "a", "b", "ab", "a|b", "|", "a,b", "a\x00", "\x00", "a/b", " ",
 	strings.Repeat("\xff", 32), strings.Repeat("a", 33), "bandchain", "band-laozi-testnet",
+	"A", "aB", "AB", " a", "a ", "BANDCHAIN", "eth", "ETH",
+	eip55Addr, strings.ToLower(eip55Addr), "0X" + strings.ToUpper(eip55Addr[2:]), base58Addr,
 }
+
+const (
+	eip55Addr  = "0x5aAeb6053F3E94C9b9A09f33669435E7Ef1BeAed"  // EIP-55 checksummed (mixed case)
+	base58Addr = "7EcDhSYGxXyscszYEp35KHN8vvw3svAuLKTzXwCFLtV" // base58 (case-sensitive)
+)
 
 var tunnelIDAlphabet = []uint64{0, 1, 2, 0x6162 /* "ab" */, 1 << 32, math.MaxUint64 - 1, math.MaxUint64}
 
@@ -61,6 +70,7 @@ func short(b []byte) string {
 func runOriginators(t tally) {
 	cfg := map[string]any{"section": "originator"}
 	set := newCollisionSet()
+	hashes := newCollisionSet()
 	check := func(kind, input string, enc []byte, err error, want []byte, wantLen int) {
 		t.Eval()
 		path := []string{"section=originator", input}
@@ -78,6 +88,10 @@ func runOriginators(t tally) {
 		}
 		if other, bad := set.add(enc, input); bad {
 			t.Violate(cfg, path, "originator-encode:collision", fmt.Sprintf("two different originators share the encoding %s: %s and %s", short(enc), other, input))
+		}
+		// injectivity monitor on what is actually signed: the 32-byte hash of the encoding
+		if other, bad := hashes.add(keccak(enc), input); bad {
+			t.Violate(cfg, path, "originator-hash:shared-by-different-originators:"+kind, fmt.Sprintf("two originators that differ in some field share hash(originator) %x: %s and %s", keccak(enc), other, input))
 		}
 		t.Saw("orig:" + kind)
 	}
